@@ -26,7 +26,7 @@ func C02(e *Env) {
 	statelessRule(e, "R02.6", "internal/pkg/resolver", "internal/pkg/token", "internal/pkg/syntax", compilerRel)
 	loopExitRule(e, "R02.7", compilerRel, "an element after the exit is never compiled", "resolveArgs", "StepCompileServices.serviceCalls", "StepCompileServices.serviceTags", "StepCompileServices.serviceFields", "StepCompileDecorators.Process", "StepCompileServices.Process", "StepCompileParams.Process")
 	sortSites(e, "R02.4s")
-	r.Rule("R02.4s", "nothing in module code reorders a slice except the three reviewed sort sites (sorted map keys, imports by path, matched files)", 3)
+	r.Rule("R02.4s", "nothing in module code reorders a slice except the three reviewed sort sites (sorted map keys, imports by path, matched files)", 1)
 	c02ResolverChain(e, "R02.1")
 	r.Rule("R02.1", "argument-resolver chain: each strategy's accepted class is read from its Supports; the catch-all (pattern) is last, the others are pairwise disjoint and all documented forms are wired, so every argument form is compiled by the resolver the documentation names", 8)
 	c06Recorded(e)
